@@ -168,17 +168,18 @@ class CallMixin:
             return base[idx]
         if isinstance(base, SSeqV):
             n = smt.SeqLen(base.t)
+            idx = self.force_some(idx)
             it = self.int_term(idx)
             if isinstance(idx, int) and idx < 0:
                 ok = smt.Ge(n, smt.IntC(-idx))
                 pos = smt.Add(n, smt.IntC(idx))
             else:
+                # symbolic indices: only the non-negative range is modelled (a negative
+                # symbolic index fails the safety obligation instead of wrapping around)
                 ok = smt.And(smt.Le(smt.IntC(0), it), smt.Lt(it, n))
                 pos = it
-                if not isinstance(idx, int):
-                    raise Unsupported('symbolic index (negative indices not modelled)')
-            if not self.choose(ok):
-                raise TargetExc(self.make_exception(IndexError, ['index out of range'], {}))
+            self.require_safe(ok, lambda: self.make_exception(IndexError, ['index out of range'], {}),
+                              'IndexError')
             return self.value_of_sort(smt.SeqNth(base.t, pos), base.ety)
         if isinstance(base, SMapV):
             kt = self.term_of(idx)
@@ -275,7 +276,16 @@ class CallMixin:
         lo_t = self._norm_index(lo, n, smt.IntC(0))
         hi_t = self._norm_index(hi, n, n)
         ln = smt.Ite(smt.Ge(hi_t, lo_t), smt.Sub(hi_t, lo_t), smt.IntC(0))
-        return SSeqV(smt.SeqExtract(sv.t, lo_t, ln), sv.ety)
+        if self.qctx:
+            return SSeqV(smt.SeqExtract(sv.t, lo_t, ln), sv.ety)
+        # pointwise definition (friendlier to quantifier instantiation than seq.extract)
+        w = self.fresh_term('slice', sv.t.sort, False)
+        i = smt.fresh_bound('i', INT)
+        self.assume(smt.Eq(smt.SeqLen(w), ln))
+        self.assume(smt.ForAll([i], smt.Implies(
+            smt.And(smt.Le(smt.IntC(0), i), smt.Lt(i, ln)),
+            smt.Eq(smt.SeqNth(w, i), smt.SeqNth(sv.t, smt.Add(lo_t, i))))))
+        return SSeqV(w, sv.ety)
 
     # ---------------------------------------------------------------- strings
     def to_str(self, v):
@@ -289,6 +299,10 @@ class CallMixin:
             return SStr(smt.Ite(smt.Ge(v.t, smt.IntC(0)), smt.StrFromInt(v.t),
                                 smt.StrConcat(smt.StrC('-'), smt.StrFromInt(smt.Neg(v.t)))))
         if isinstance(v, Obj):
+            if v.schema:
+                mm = self.env.model_for(v.schema, '__str__')
+                if mm is not None:
+                    return self.call(BoundMeth(v, mm), [], {})
             m = self.lookup_class_attr(v, '__str__')
             if m is not None:
                 return self.call(m, [], {})
